@@ -74,21 +74,24 @@ Theorem C19_message_trace_ok : forall cfg w0,
   exists names, Inv (allowed_op cfg names) (w_ev w0) (snd (handle_message cfg w0)).
 Proof. exact message_trace_ok. Qed.
 
-(* C19_transfer_ends_with_connection, full statement (no descriptor open after teardown) is FALSE
-   for the unchanged tree (F7): *)
-Theorem C19_transfer_ends_with_connection_refuted : exists cfg perms envs input,
-  let '(_, _, st, _, _, _) := run_message cfg perms true envs input st0 in
-  let '(_, _, st') := run_gone cfg [] st in fd_open st' = true.
-Proof. exact transfer_outlives_connection. Qed.
-
-(* with notes/fix_C19_1.diff teardown closes it, whatever the state *)
-Theorem C19_transfer_ends_with_connection_fixed : forall cfg envs st,
+(* C19_transfer_ends_with_connection: a transfer never outlives its connection.  True for the tree
+   since fix commit 4d56b95 (the mirror's [fix_f7 = true]): teardown leaves no descriptor, whatever
+   the state; [lost_fds] (descriptors overwritten while open) is not changed by it *)
+Theorem C19_transfer_ends_with_connection : forall cfg envs st,
   fix_f7 cfg = true ->
   let '(_, _, st') := run_gone cfg envs st in fd_open st' = false /\ lost_fds st' = lost_fds st.
 Proof. exact teardown_closes_fixed. Qed.
 
-(* teardown can block forever on cl->outputMutex after a refusal between open and header (F14) *)
-Theorem C19_teardown_can_block : exists cfg perms envs input,
+(* the flow before that commit ([fix_f7 = false]) violated it: witness kept as regression test
+   (corpus/C19/f7_fd_outlives_connection.script) *)
+Theorem C19_transfer_ends_with_connection_prefix_refuted : exists cfg perms envs input,
+  let '(_, _, st, _, _, _) := run_message cfg perms true envs input st0 in
+  let '(_, _, st') := run_gone cfg [] st in fd_open st' = true.
+Proof. exact transfer_outlives_connection. Qed.
+
+(* before fix commit b4cfd8a ([fix_f14 = false]) teardown could block forever on cl->outputMutex after a
+   refusal between open and header (F14 reached through file transfer); regression witness *)
+Theorem C19_teardown_could_block_prefix : exists cfg perms envs input,
   let '(_, _, st, _, _, _) := run_message cfg perms false envs input st0 in
   fst (fst (run_gone cfg [] st)) = false.
 Proof. exact teardown_can_block. Qed.
@@ -123,7 +126,7 @@ Theorem C19_tight_confined_refuted : exists root path t rel,
   tight_target false true true false root path = Some t /\ t = root ++ rel /\ stays_below_root rel = false.
 Proof. exact tight_confined_refuted. Qed.
 
-(* it holds for the control flow with notes/fix_C19_3.diff (names with a ".." component or without
+(* it holds for the control flow with notes/fix_C19_2.diff (names with a ".." component or without
    leading '/' refused) *)
 Theorem C19_tight_confined_fixed : forall reg en vo root path t,
   tight_target true reg en vo root path = Some t ->
